@@ -90,7 +90,8 @@ Print Assumptions C09_nonvacuous.
    model of the orientation setter then stores position and orientation paths of length 0, so the clause
    "position and orientation paths always have equal length >= 1" fails: the hypothesis `Forall wf_op h`
    of C09_lengths_invariant is not guaranteed by the implementation's own input check
-   (known finding lengths/orientation=:empty-rotation). *)
+   (found as lengths/orientation=:empty-rotation; the validator rejects empty Rotations since /repo 5f63352:
+   this theorem records what the hypothesis protects against). *)
 Theorem C09_lengths_invariant_empty_orientation_refuted :
   let o := init_pose (O := OctOps) (Vector [(1, 2, 3); (4, 5, 6)]) None in
   let x := @SetOri OctOps (Some (Vector [])) in
